@@ -29,7 +29,7 @@ Desc(msgs) == [pkg |-> "tp", msgs |-> msgs, deps |-> <<>>]
 
 BaseCfg ==
   [types |-> <<"Root">>, sort |-> FALSE, separate |-> FALSE, importoverride |-> FALSE, dottedimport |-> FALSE,
-   exclude |-> <<>>, required |-> <<>>, computed |-> <<>>, sensitive |-> <<>>, nameoverrides |-> <<>>,
+   exclude |-> <<>>, required |-> <<>>, computed |-> <<>>, sensitive |-> <<>>, nameoverrides |-> <<>>, schematypes |-> <<>>,
    validators |-> <<>>, planmodifiers |-> <<>>, usfu |-> FALSE, injected |-> <<>>,
    timetype |-> TRUE, durationtype |-> TRUE, durationcustom |-> "", customtypes |-> <<>>, suffixes |-> <<>>,
    channel |-> <<>>, alts |-> <<>>, fault |-> ""]
@@ -171,7 +171,15 @@ FlagShapes == <<
                         !.validators = <<[k |-> "Root.Str", v |-> <<"1">>], [k |-> "Root.Items", v |-> <<"2">>]>>,
                         !.planmodifiers = <<[k |-> "Root.When", v |-> <<"1">>]>>]) >>
 
-AllSessionShapes == ScalarShapes \o ListShapes \o MapShapes \o ObjShapes \o OneofShapes \o EmbedShapes \o EmptyShapes \o DeepShapes \o PairShapes \o FlagShapes
+\* schema_types: the attribute type replaced for a string (by path) and for 64-bit integers (by Message.field, at the
+\* root and nested); the converters treat the field like any other scalar.  (Overrides of repeated fields and of
+\* fields whose Go type differs from cast_to_type do not compile in the current generator: outside D, DESIGN.md 7.1.)
+OverrideShapes == <<
+  Shape("v.ovr", Desc(<<Msg("Leaf", <<Fld("Str", 1, "string"), Fld("Num", 2, "int64")>>, <<>>),
+                         Msg("Root", <<Fld("Str", 1, "string"), Fld("Num", 2, "int64"), MsgF("Sub", 3, "Leaf"), Rep(Fld("Items", 4, "int64"))>>, <<>>)>>),
+        [BaseCfg EXCEPT !.schematypes = <<[k |-> "Root.Str", v |-> "string"], [k |-> "Leaf.Num", v |-> "int64"]>>]) >>
+
+AllSessionShapes == OverrideShapes \o ScalarShapes \o ListShapes \o MapShapes \o ObjShapes \o OneofShapes \o EmbedShapes \o EmptyShapes \o DeepShapes \o PairShapes \o FlagShapes
 \* refresh histories are quadratic / cubic in the number of values: one shape per kind of coupling
 RefreshShapes == ScalarShapes \o ListShapes \o MapShapes \o ObjShapes \o OneofShapes \o EmbedShapes \o EmptyShapes \o PairShapes
 =============================================================================
